@@ -34,6 +34,7 @@ RULE = ('Deterministic commands `sh ./cmd.sh` that cat fixed payloads to '
 RULE += ' ' + 'Also: output directories beside the working directory whose name extends it (absolute and ../ relative); a fifth of text outputs with 201 / 230 / 1100 ASCII lines before the drawn ones (half of those cases -n 1); valid UTF-8 that encoding sniffers take for HZ / UTF-7; bystander files older than their status change; one base name in two directories (ASCII in one, accents in the other); names differing only in non-identifier characters; block-sized binary outputs.'
 RULE += ' ' + 'Round 6: an earlier test in the directory named test__x.py (references in ref/_x) or test_xy.py must still pass afterwards and its files and reference directory are part of the before/after snapshot (only test_x.py and ref/x are exempt); output names that are glob patterns (log[0].txt beside a bystander log0.txt); outputs that already exist and are rewritten by `cp -p` from a source with an OLD modification time.'
 RULE += ' ' + "Round 7: exit 'statuses' -9 / -15 (the command's own shell dies by that signal); output modes tmpdir and tmpdir_sub (files under $TMPDIR, named on stdout when gentest runs the command at least twice); a third of the cases run on a machine whose own host name does not resolve (sitecustomize shim)."
+RULE += ' ' + "Round 8: month names as people abbreviate them (Sept, Sep., June); a path under the home directory; a home directory whose path holds the user's name; the scratch area named on stdout without files in it (two or more iterations)."
 ASSUMPTIONS = ['host name, user name and today\'s date are captured once per '
                'run and recorded in the evidence (gentest reads them)',
                'output files are UTF-8 text or binary']
